@@ -299,7 +299,7 @@ fn history_case(tag: &'static str, i: u64, seed: u64, cfg: SnapCfg, out: &mut Ca
         }
     }
     chain.0.borrow_mut().serve_snapshot = None;
-    if i < 2 {
+    if i % 53 < 2 {
         let c = chain.0.borrow();
         out.sample = Some(json!({"versions": c.versions.len(), "snapshots": c.snapshots.iter().map(|(v, b, _)| json!({"version": v.to_string(), "bytes": b.len()})).collect::<Vec<_>>(), "avoid_snapshots": avoid}));
     }
